@@ -81,14 +81,15 @@ def tree_hash():
     return h.hexdigest()
 
 
-def build(fuzz=False):
-    """(Re)build build/pubsub.test from /repo's current working tree + the overlaid harness files."""
+def build(fuzz=None):
+    """(Re)build build/pubsub.test from /repo's current working tree + the overlaid harness files.
+    fuzz=<FuzzName>: build the coverage-instrumented binary build/pubsub.fuzz-<FuzzName>.test instead."""
     os.makedirs(BUILD, exist_ok=True)
     lock = open(os.path.join(BUILD, ".lock"), "w")
     fcntl.flock(lock, fcntl.LOCK_EX)
     try:
         want = tree_hash()
-        out = os.path.join(BUILD, "pubsub.test")
+        out = os.path.join(BUILD, "pubsub.test" if not fuzz else "pubsub.fuzz-%s.test" % fuzz)
         stamp = out + ".stamp"
         if os.path.exists(out) and os.path.exists(stamp) and open(stamp).read() == want:
             return out
@@ -109,6 +110,8 @@ def build(fuzz=False):
                "-modfile=" + os.path.join(BUILD, "go.mod"),
                "-overlay=" + os.path.join(BUILD, "overlay.json"),
                "-o", out + ".tmp", "."]
+        if fuzz:
+            cmd[3:3] = ["-fuzz=^%s$" % fuzz]
         p = subprocess.run(cmd, cwd=REPO, env=go_env(), stdout=subprocess.PIPE, stderr=subprocess.STDOUT, text=True)
         if p.returncode != 0 and os.path.exists(GO125):
             env = go_env()
@@ -294,6 +297,12 @@ def cmd_run(prop, tier):
         timeout = cfg.get("timeout", 600)
         args = ["-test.run", "^%s$" % test, "-test.count=1", "-test.timeout=%ds" % timeout]
         kind = part.get("kind", "rapid")
+        use_binary = binary
+        if kind == "fuzz" and cfg.get("fuzztime"):
+            # native coverage-guided fuzzing (thorough tier): instrumented binary, fresh cache and corpus directories
+            use_binary = build(fuzz=test)
+            args = ["-test.run", "^$", "-test.fuzz", "^%s$" % test, "-test.fuzztime", os.environ.get("VF_FUZZTIME", cfg["fuzztime"]),
+                    "-test.fuzzcachedir", os.path.join(sd, "fuzzcache"), "-test.timeout=%ds" % timeout, "-test.parallel", "16"]
         if kind == "rapid":
             checks = max(1, cfg["checks"] // shards)
             args += ["-rapid.checks=%d" % checks, "-rapid.seed=%d" % shard_seed(seed, prop, test, s),
@@ -301,7 +310,7 @@ def cmd_run(prop, tier):
             if cfg.get("steps"):
                 args += ["-rapid.steps=%d" % cfg["steps"]]
         logf = open(os.path.join(sd, "out.log"), "w")
-        p = subprocess.Popen([binary] + args, cwd=sd, env=env, stdout=logf, stderr=subprocess.STDOUT)
+        p = subprocess.Popen([use_binary] + args, cwd=sd, env=env, stdout=logf, stderr=subprocess.STDOUT)
         return {"p": p, "job": job, "dir": sd, "t0": time.time(), "timeout": timeout + 60, "log": logf}
 
     pending = list(jobs)
@@ -334,7 +343,7 @@ def cmd_run(prop, tier):
         st_path = os.path.join(sd, "stats.json")
         if os.path.exists(st_path):
             try:
-                for a in json.load(open(st_path)):
+                for a in (json.load(open(st_path)) or []):
                     for k in ("labels", "excluded_known", "inconclusive"):
                         a[k] = a.get(k) or {}
                     a["samples"] = a.get("samples") or []
@@ -360,6 +369,32 @@ def cmd_run(prop, tier):
                     m["shards"] += 1
             except Exception as e:  # noqa: BLE001
                 infra.append("bad stats file %s: %s" % (st_path, e))
+        if part.get("kind") == "fuzz" and cfg.get("fuzztime"):
+            # the coordinator's progress lines are the evidence of a native fuzzing campaign
+            import re
+            execs = [int(x) for x in re.findall(r"execs: (\d+)", out)]
+            inter = [int(x) for x in re.findall(r"new interesting: \d+ \(total: (\d+)\)", out)]
+            m = merged.setdefault(test, {"evaluations": 0, "nontrivial_evaluations": 0, "nt": set(), "labels": {}, "samples": [],
+                                         "excluded_known": {}, "inconclusive": {}, "violations": 0, "exhaustive": False, "notes": {}, "shards": 0})
+            if execs:
+                m["evaluations"] += execs[-1]
+                m["labels"]["native-fuzz-execs"] = execs[-1]
+            if inter:
+                # corpus entries kept by the fuzzer are distinct inputs that each reached new coverage
+                for i in range(inter[-1]):
+                    m["nt"].add("fuzz-corpus-%d" % i)
+                m["labels"]["native-fuzz-interesting-inputs"] = inter[-1]
+            m["notes"]["native_fuzz"] = "go test -fuzz, %s, 16 workers, fresh corpus + seed corpus; counts from the coordinator's log" % os.environ.get("VF_FUZZTIME", cfg["fuzztime"])
+            m["shards"] += 1
+            if not m["samples"]:
+                m["samples"] = [{"seed_corpus": "see FuzzVfC12 in harness/pubsub/vf_c12_test.go"}]
+            crashers = glob.glob(os.path.join(pr["dir"], "testdata", "fuzz", test, "*"))
+            if crashers and not os.path.exists(os.path.join(pr["dir"], "lastfail-%s.json" % test)):
+                cf = {"property": prop, "test": test, "case": {"native_fuzz_input": open(crashers[0], errors="replace").read()[:100000]},
+                      "violations": [{"key": "%s/crash" % prop, "message": "native fuzzing crasher: " + out[-1500:], "step": -1}]}
+                rp = save_replay(prop, obj=cf)
+                violations.append((rp, "native fuzzing found a crasher (raw corpus file embedded in the replay)"))
+                continue
         rc = pr["rc"]
         if rc == 0:
             continue
